@@ -42,7 +42,7 @@ from wormhole.eventual import EventualQueue
 from wormhole.util import dict_to_bytes
 
 from ..core import Result
-from ..fakes import ToyNoise, toy_tag
+from ..fakes import ToyNoise, toy_tag, hx
 from ..util import automat_state
 
 ID = "C17"
@@ -88,6 +88,55 @@ VERSIONS = {
     "emptylist": {"can-dilate": []},
     "both": {"can-dilate": ["vetch", "ged"]},
 }
+
+
+def vers_value(op):
+    """the peer's versions message body of a `versions` operation, as it comes off the wire (through JSON)"""
+    v = VERSIONS[op[1]] if len(op) == 2 else op[2]
+    return json.loads(json.dumps(v))
+
+
+def j_tokens(v):
+    """JSON in the prefix tokens of the model driver (numbers only as zero / non-zero)"""
+    if v is None:
+        return ["N"]
+    if v is True:
+        return ["T"]
+    if v is False:
+        return ["F"]
+    if isinstance(v, (int, float)):
+        return ["I0" if v == 0 else "I1"]
+    if isinstance(v, str):
+        return ["S" + hx(v.encode("utf8"))]
+    if isinstance(v, list):
+        out = [f"A{len(v)}"]
+        for x in v:
+            out += j_tokens(x)
+        return out
+    out = [f"O{len(v)}"]
+    for k, x in v.items():
+        out += ["S" + hx(k.encode("utf8"))] + j_tokens(x)
+    return out
+
+
+def vers_class(v):
+    """what the PROPERTY says about a versions body (not what the code does with it):
+       capable / incapable (+ ':unhashable-can-dilate-entry' / ':can-dilate-not-iterable' for the two input
+       families on which the current tree raises inside _find_shared_versions) / unspecified"""
+    if not isinstance(v, dict):
+        return "unspecified:versions-not-a-dict"     # Boss never hands such a body over (bytes_to_dict asserts a dict)
+    if "can-dilate" not in v:
+        return "incapable"
+    c = v["can-dilate"]
+    if isinstance(c, dict):
+        return "unspecified:can-dilate-a-dict"
+    if isinstance(c, list):
+        has = any(isinstance(x, str) and x in DILATION_VERSIONS for x in c)
+        unh = any(isinstance(x, (list, dict)) for x in c)
+        return ("capable" if has else "incapable") + (":unhashable-can-dilate-entry" if unh else "")
+    if isinstance(c, str):
+        return "incapable"                              # a bare string is not a list of versions
+    return "incapable:can-dilate-not-iterable"          # number / boolean / null
 
 
 # ---------------------------------------------------------------------------
@@ -390,7 +439,7 @@ class World:
             self.D.got_key(b"\x11" * 32)
             return None
         if k == "versions":
-            self.D.got_wormhole_versions(dict(VERSIONS[op[1]]))
+            self.D.got_wormhole_versions(vers_value(op))
             return None
         if k == "msg":
             self.D.received_dilate(dict_to_bytes(self._msg(op)))
@@ -546,8 +595,45 @@ class World:
 CLOSE = [["t", "close"], ["t", "nameplate_done"], ["t", "mailbox_done"], ["t", "stoppedRC"]]
 INCAPABLE = ("nocan", "empty", "disjoint", "emptylist")
 
+# values of `can-dilate` a peer's JSON may carry
+JSON_CAN_DILATE = [
+    [2, 3], [1.5], [True, False], [None], [0], ["x", 1.5, None, False, 0], ["vetch", "Ged", "ged "], [""], "ged", "", "g",
+    [[1]], [{}], [[]], ["ged", [1]], ["x", {"a": 1}], 5, 0, None, True, False, 1.5,
+    ["ged", 2], [2, "ged", None], ["vetch", "ged", "ged"],
+    {"ged": 1}, {}, {"x": [1]},
+]
+
+
+def gen_json(rng, depth=0):
+    x = rng.random()
+    if depth >= 2 or x < 0.55:
+        return rng.choice([0, 1, 2, -1, 1.5, 0.0, True, False, None, "", "x", "ged", "vetch", "g", "Ged"])
+    if x < 0.85:
+        return [gen_json(rng, depth + 1) for _ in range(rng.randint(0, 3))]
+    return {rng.choice(["a", "ged", "can-dilate"]): gen_json(rng, depth + 1) for _ in range(rng.randint(0, 2))}
+
+
+def gen_versions(rng, adversarial):
+    x = rng.random()
+    if x < 0.45:
+        can = [gen_json(rng, 1) for _ in range(rng.randint(0, 4))]
+        if rng.random() < 0.3:
+            can.insert(rng.randint(0, len(can)), "ged")
+    elif x < 0.75:
+        can = gen_json(rng, 0)
+    else:
+        can = rng.choice(JSON_CAN_DILATE)
+    body = {"can-dilate": can}
+    if rng.random() < 0.5:
+        body["app_versions"] = {}
+    if adversarial and rng.random() < 0.1:
+        return rng.choice([[1], "s", None, 5, can])
+    return body
+
 
 def op_line(op):
+    if op[0] == "versions" and len(op) == 3:
+        return "versions j " + " ".join(j_tokens(vers_value(op)))
     return " ".join(str(x) for x in op)
 
 
@@ -719,21 +805,39 @@ def oracle(r):
             v.append(("sent-after-stop", f"{op} made the stopped Manager send {ev}"))
             break
 
-    # 4. an incapable peer is reported
-    vers = [op[1] for op in case["ops"] if op[0] == "versions"]
+    # 4. an incapable peer is reported — whatever JSON its `can-dilate` holds — and nothing raises on the way
+    vops = [op for op in case["ops"] if op[0] == "versions"]
     dilated = any(op[0] == "dilate" for op in case["ops"])
-    if len(vers) == 1 and dilated and completed:
-        if vers[0] in INCAPABLE:
-            for i, res in enumerate(r.final["waiters"]):
-                if res != "err:OldPeerCannotDilateError":
-                    v.append(("connect-not-failed:" + res.split(":")[0],
-                              f"peer versions {VERSIONS[vers[0]]!r}: connect() #{i} is {res}, not OldPeerCannotDilateError"))
-                    break
-        else:
-            for i, res in enumerate(r.final["waiters"]):
-                if res == "err:OldPeerCannotDilateError":
-                    v.append(("connect-failed-for-capable-peer", f"connect() #{i} is {res} although the peer can dilate"))
-                    break
+    if len(vops) == 1:
+        vv = vers_value(vops[0])
+        cls = vers_class(vv)
+        family = cls.split(":", 1)[1] if ":" in cls else ""
+        raised = None
+        seen_versions = False
+        for (op, tok, ev, err, summ, snap) in r.steps:
+            if op[0] == "versions":
+                seen_versions = True
+                if err not in (None, "NoTransition"):
+                    raised = (op, err)
+            if op[0] == "dilate" and seen_versions and err == "TypeError":   # the replay of the pending versions
+                raised = (op, err)
+        if not cls.startswith("unspecified"):
+            if raised is not None:
+                v.append(("versions-raise" + (":" + family if family else ""),
+                          f"peer versions {vv!r}: {raised[0][0]} raised {raised[1]} (nothing is reported to connect() callers; "
+                          f"through Boss the wormhole dies with that error)"))
+            if dilated and completed and not (raised is not None and family):
+                if cls.startswith("incapable"):
+                    for i, res in enumerate(r.final["waiters"]):
+                        if res != "err:OldPeerCannotDilateError":
+                            v.append(("connect-not-failed:" + res.split(":")[0],
+                                      f"peer versions {vv!r}: connect() #{i} is {res}, not OldPeerCannotDilateError"))
+                            break
+                else:
+                    for i, res in enumerate(r.final["waiters"]):
+                        if res == "err:OldPeerCannotDilateError":
+                            v.append(("connect-failed-for-capable-peer", f"connect() #{i} is {res} although the peer can dilate"))
+                            break
     # 4b. ... at the very next eventual turn, for every call already issued (fresh or held endpoint alike)
     for k2 in range(1, len(r.steps)):
         op, tok, ev, err, summ, snap = r.steps[k2]
@@ -757,6 +861,8 @@ def tags_of(r):
     seen = set()
     for (op, tok, ev, err, summ, snap) in r.steps:
         t.append("op:" + op[0] + (":" + str(op[1]) if op[0] in ("msg", "versions", "t") else ""))
+        if op[0] == "versions":
+            t.append("versions-class:" + vers_class(vers_value(op)))
         if tok:
             t.append("refused:" + tok)
         if err:
@@ -922,6 +1028,16 @@ def corpus():
         out.append({"cfg": {}, "ops": conn + [["expire"], ["lost", 0], ["turn"], ["expire"],
                                               ["msg", "reconnecting" if side == LOW_SIDE else "reconnect"], ["inbound", 1], ["kcm", 1],
                                               ["turn"], ["expire"], ["expire"], ["expire"]] + CLOSE, "name": "silent/again"})
+    # arbitrary JSON in the peer's versions message: dilate() first / later, connect() before and after
+    for val in JSON_CAN_DILATE:
+        body = {"can-dilate": val, "app_versions": {}}
+        out.append({"cfg": {}, "ops": [["dilate"], ["connect"], ["key"], ["versions", "j", body], ["turn"], ["connect"], ["turn"]] + CLOSE,
+                    "name": "json/first"})
+        out.append({"cfg": {}, "ops": [["key"], ["versions", "j", body], ["dilate"], ["connect"], ["turn"], ["dilate"], ["connect"], ["turn"]] + CLOSE,
+                    "name": "json/later"})
+    for body in ([1], "s", None, 5, [], 0, False, ""):        # not even a dict (Boss refuses these before the Dilator)
+        out.append({"cfg": {}, "ops": [["dilate"], ["connect"], ["versions", "j", body], ["turn"]] + CLOSE, "name": "json/not-a-dict"})
+        out.append({"cfg": {}, "ops": [["versions", "j", body], ["dilate"], ["connect"], ["turn"]] + CLOSE, "name": "json/not-a-dict"})
     # an incapable peer that nevertheless asks to dilate
     out.append({"cfg": {}, "ops": [["key"], ["versions", "empty"], ["dilate"], ["connect"], ["turn"], ["msg", "please", LOW_SIDE],
                                    ["inbound", 0], ["kcm", 0], ["turn"], ["connect"], ["turn"]] + CLOSE, "name": "old-but-pleases"})
@@ -975,8 +1091,14 @@ def gen_case(rng, adversarial):
         cfg = {"async_listen": True}
     side = rng.choice([LOW_SIDE, HIGH_SIDE])
     leader = side == LOW_SIDE
-    vers = "full" if rng.random() < 0.75 else rng.choice(list(VERSIONS))
-    setup = [["dilate"], ["key"], ["versions", vers]]
+    x = rng.random()
+    if x < 0.65:
+        vop = ["versions", "full"]
+    elif x < 0.8:
+        vop = ["versions", rng.choice(list(VERSIONS))]
+    else:
+        vop = ["versions", "j", gen_versions(rng, adversarial)]
+    setup = [["dilate"], ["key"], vop]
     rng.shuffle(setup)
     if not adversarial and setup.index(["key"]) > 0 and rng.random() < 0.5:
         setup.remove(["key"])
